@@ -26,6 +26,7 @@ def correspond(ctx):
     from cvxopt import solvers, matrix, sparse, blas, base, misc
     solvers.options.clear(); solvers.options['show_progress'] = False
     rng = random.Random(ctx.seed * 15485863 + 3)
+    rng_z = random.Random(ctx.seed * 7717 + 33)          # own stream for the zero-tolerance settings
     n_inst = 25 if ctx.quick() else 500
     lines, meta = [], []
     stats = {'solves': 0}
@@ -75,6 +76,10 @@ def correspond(ctx):
                     # a loose relative tolerance with a tight absolute one: the run stops on the relative criterion alone, far from the optimum,
                     # where the three documented forms of the relative gap differ visibly
                     o['abstol'] = 1e-12; o['reltol'] = rng.choice([0.5, 0.2, 0.1])
+            # one of the two gap criteria switched off by a zero tolerance (a legal setting: only one of abstol / reltol has to be positive), as int or float
+            zr = rng_z.random()
+            if zr < 0.12: o['abstol'] = rng_z.choice([0, 0.0]); o['reltol'] = rng_z.choice([1e-8, 1e-9]); o.setdefault('feastol', 1e-7)
+            elif zr < 0.24: o['reltol'] = rng_z.choice([0, 0.0]); o['abstol'] = rng_z.choice([1e-9, 1e-10]); o.setdefault('feastol', 1e-7)
             c2, G2, h2, A2, b2, P2 = PR.to_cvx(cvxopt, pr, sparse=sp, junk=(random.Random(rng.random()) if junk else None))
             args = (P2, c2, None, None, None, A2, b2) if nocone else (P2, c2, G2, h2, dims, A2, b2)
             def run(args=args, kw=kw, o=o, junk=junk, tag=tag):
